@@ -966,4 +966,150 @@ def exOpt : List PInstr :=
     { op := "Jump", target := 0 }, { op := "Jump", target := 7 } ]
 
 example : optimize exCode = .ok exOpt := by rfl
+
+/-! ### panics: which error outcomes are reachable -/
+
+theorem segments_error' (pats : List Pattern) (jt : List Nat) (fuel : Nat) :
+    ∀ (i : Nat) (rest : List PInstr) (e : Panic), rest.length ≤ fuel →
+      segments pats jt fuel i rest = .error e →
+        ∃ c w, c ∈ pats ∧ w.map (·.op) = c.opcodes ∧ c.replace w = .error e := by
+  induction fuel with
+  | zero =>
+    intro i rest e hl h
+    cases rest with
+    | nil => simp [segments] at h
+    | cons a tl => simp at hl
+  | succ fuel ih =>
+    intro i rest e hl h
+    cases rest with
+    | nil => simp [segments] at h
+    | cons cur tl =>
+      unfold segments at h
+      cases hfm : firstMatch jt i (cur :: tl) (patternsByOpcode pats cur.op) with
+      | none =>
+        rw [hfm] at h
+        simp only at h
+        cases hs : segments pats jt fuel (i + 1) tl with
+        | error e' =>
+          rw [hs] at h; simp only [Except.error.injEq] at h; subst h
+          exact ih _ _ _ (by simp at hl; omega) hs
+        | ok segs' => rw [hs] at h; simp at h
+      | some cw =>
+        obtain ⟨c, w⟩ := cw
+        rw [hfm] at h
+        simp only at h
+        obtain ⟨hmem, hle, hw, hm⟩ := firstMatch_some hfm
+        have hpat := mem_patternsByOpcode hmem
+        have hwl : w.length = c.opcodes.length := by rw [hw, List.length_take]; omega
+        cases hr : c.replace w with
+        | error e' =>
+          rw [hr] at h; simp only [Except.error.injEq] at h; subst h
+          refine ⟨c, w, hpat.1, ?_, hr⟩
+          have := (matchAt_true _ _ _ hm).2.1
+          rw [← hwl, List.take_length] at this
+          exact this
+        | ok r =>
+          rw [hr] at h
+          simp only at h
+          cases hs : segments pats jt fuel (i + c.opcodes.length) (List.drop c.opcodes.length (cur :: tl)) with
+          | error e' =>
+            rw [hs] at h; simp only [Except.error.injEq] at h; subst h
+            refine ih _ _ _ ?_ hs
+            simp only [List.length_drop, List.length_cons] at hl ⊢
+            omega
+          | ok segs' => rw [hs] at h; simp at h
+
+theorem jumpsOf_upper : ∀ (segs : List Seg) (p x : Nat), x ∈ jumpsOf p segs →
+    x < p + (outOf segs).length := by
+  intro segs
+  induction segs with
+  | nil => intro p x h; simp [jumpsOf] at h
+  | cons s rest ih =>
+    intro p x h
+    cases s with
+    | copy y =>
+      simp only [jumpsOf] at h
+      simp only [outOf, List.flatMap_cons, Seg.out, List.length_append, List.length_cons,
+        List.length_nil]
+      split at h
+      · rw [List.mem_cons] at h
+        rcases h with h | h
+        · omega
+        · have := ih _ _ h; simp only [outOf] at this; omega
+      · have := ih _ _ h; simp only [outOf] at this; omega
+    | rewrite w r =>
+      simp only [jumpsOf] at h
+      simp only [outOf, List.flatMap_cons, Seg.out, List.length_append]
+      have := ih _ _ h; simp only [outOf] at this; omega
+
+theorem patchDirect_error (all : List (Nat × Int)) : ∀ (js : List Nat) (opt : List PInstr) (e : Panic),
+    (∀ j ∈ js, j < opt.length) → patchDirect all opt js = .error e →
+      e = .overflow ∧ ∃ t : Nat, (t : Int) + shiftSum all t > 65535 := by
+  intro js
+  induction js with
+  | nil => intro opt e _ h; simp [patchDirect] at h
+  | cons j js ih =>
+    intro opt e hlt h
+    unfold patchDirect at h
+    have hj := hlt j List.mem_cons_self
+    rw [List.getElem?_eq_getElem hj] at h
+    simp only at h
+    split at h
+    · rename_i hov
+      simp only [Except.error.injEq] at h
+      exact ⟨h.symm, _, hov⟩
+    · exact ih _ _ (fun j' hj' => by rw [List.length_set]; exact hlt j' (List.mem_cons_of_mem _ hj')) h
+
+/-- The only panics of the pass: a Replacement's own panic on a window that matched its pattern, or
+the uint16 overflow.  (`Panic.index`, the totalisation of Go's slice indexing / loop fuel, is not
+reachable through the loop or through `patchJumps`.) -/
+theorem optimizeWith_error (pats : List Pattern) (code : List PInstr) (e : Panic)
+    (h : optimizeWith pats code = .error e) :
+    (∃ c w, c ∈ pats ∧ w.map (·.op) = c.opcodes ∧ c.replace w = .error e) ∨ e = .overflow := by
+  unfold optimizeWith at h
+  simp only at h
+  rw [mainLoop_eq] at h
+  cases hs : segments pats (collectJumpTargets code) code.length 0 code with
+  | error e' =>
+    rw [hs] at h; simp only [Except.error.injEq] at h; subst h
+    exact Or.inl (segments_error' _ _ _ _ _ _ (Nat.le_refl _) hs)
+  | ok segs =>
+    rw [hs] at h
+    simp only [List.nil_append, List.length_nil] at h
+    have hperm := sortBy_perm (keyOf (outOf segs)) (jumpsOf 0 segs)
+    have hnd : (sortBy (keyOf (outOf segs)) (jumpsOf 0 segs)).Nodup :=
+      hperm.symm.nodup (jumpsOf_nodup segs 0)
+    have hd := patchJumps_eq_direct (shiftsOf 0 segs) (sortBy (keyOf (outOf segs)) (jumpsOf 0 segs))
+      (outOf segs) (shiftsOf_sorted segs 0) (sortBy_sorted _ _) hnd
+    change patchJumps (outOf segs) (sortBy (keyOf (outOf segs)) (jumpsOf 0 segs)) (shiftsOf 0 segs) 0
+      = .error e at h
+    rw [hd] at h
+    refine Or.inr (patchDirect_error _ _ _ _ ?_ h).1
+    intro j hj
+    have := jumpsOf_upper segs 0 j (hperm.mem_iff.1 hj)
+    omega
+
+/-- with the real table: only the unknown-path-domain panic or the uint16 overflow -/
+theorem optimize_error (code : List PInstr) (e : Panic) (h : optimize code = .error e) :
+    e = .unreachable ∨ e = .overflow := by
+  rcases optimizeWith_error allPatterns code e h with ⟨c, w, hc, hw, hr⟩ | h
+  · left
+    simp only [allPatterns, List.mem_cons, List.not_mem_nil, or_false] at hc
+    rcases hc with rfl | rfl | rfl | rfl
+    all_goals
+      match w, hw with
+      | [a, b], _ => ?_
+      | [], hw => simp [getFieldLocalPattern, constantTransferAndConvertPattern,
+          pathTransferAndConvertPattern, nilTransferAndConvertPattern] at hw
+      | [_], hw => simp [getFieldLocalPattern, constantTransferAndConvertPattern,
+          pathTransferAndConvertPattern, nilTransferAndConvertPattern] at hw
+      | _ :: _ :: _ :: _, hw => simp [getFieldLocalPattern, constantTransferAndConvertPattern,
+          pathTransferAndConvertPattern, nilTransferAndConvertPattern] at hw
+    · simp [getFieldLocalPattern] at hr
+    · simp only [constantTransferAndConvertPattern] at hr; split at hr <;> simp at hr
+    · simp only [pathTransferAndConvertPattern] at hr
+      repeat' split at hr
+      all_goals first | (simp at hr; done) | (simp only [Except.error.injEq] at hr; exact hr.symm)
+    · simp [nilTransferAndConvertPattern] at hr
+  · exact Or.inr h
 end Verif.Proofs.Peephole
